@@ -11,11 +11,11 @@ cd $wt && git checkout -q -- src 2>/dev/null
 demo=$(ls tests/seeded*.rs tests/*demo*.rs 2>/dev/null | head -1)
 echo "demo file: $demo" | tee -a $log
 demo_name=$(basename "${demo%.rs}")
-run_demo() { cargo test --offline --test "$demo_name" 2>&1 | grep -E "^test result|FAILED|failed|panicked" | head -5; }
+run_demo() { timeout 300 cargo test --offline --test "$demo_name" > $out/demo.out 2>&1 < /dev/null; grep -E "^test result|FAILED|failed|panicked" $out/demo.out | head -5; pkill -9 -f "$wt/target/.*/debug/test" 2>/dev/null; rm -f $out/demo.out; }
 echo "== without patch: demo" | tee -a $log; run_demo | tee -a $log
 git apply seeded/patch.diff || { echo "patch does not apply in worktree" | tee -a $log; }
 echo "== with patch: baseline suite" | tee -a $log
-cargo nextest run --workspace --no-fail-fast --test-threads 8 --offline 2>&1 | grep -E "Summary|FAIL" | head -8 | tee -a $log
+timeout 900 cargo nextest run --workspace --no-fail-fast --test-threads 8 --offline > $out/suite.out 2>&1 < /dev/null; grep -E "Summary|FAIL" $out/suite.out | head -8 | tee -a $log; rm -f $out/suite.out; pkill -9 -f "$wt/target/.*/debug/test" 2>/dev/null
 echo "== with patch: demo" | tee -a $log; run_demo | tee -a $log
 git checkout -q -- src
 # our check against the change applied to /repo (rebased onto /repo's HEAD if needed)
@@ -24,8 +24,7 @@ unset CARGO_TARGET_DIR
 if git -C /repo diff --quiet; then
   if git -C /repo apply $out/patch.diff 2>>$log; then
     echo "== our check ($p quick) with the change applied to /repo" | tee -a $log
-    ./check $p quick 2>&1 | grep -E "VIOLATION|KNOWN|MACHINERY|^C[0-9]+ " | head -8 | tee -a $log
-    echo "check exit: ${PIPESTATUS[0]}" | tee -a $log
+    timeout 1200 ./check $p quick > $out/check.out 2>&1 < /dev/null; echo "check exit: $?" > $out/check.rc; grep -E "VIOLATION|KNOWN|MACHINERY|^C[0-9]+ " $out/check.out | head -8 | tee -a $log; cat $out/check.rc | tee -a $log; rm -f $out/check.out $out/check.rc
     git -C /repo checkout -q -- .
   else
     echo "patch does not apply to /repo HEAD (fix commits?) - needs manual rebase" | tee -a $log
